@@ -134,6 +134,10 @@ func IntFromString(str string, base int) (Object, error) {
 		}
 	nosigil:
 	}
+	// The digits have no sign of their own: int("--5"), int("0x-5", 16)
+	if s[0] == '+' || s[0] == '-' {
+		goto error
+	}
 	if convertBase == 0 {
 		convertBase = 10
 	}
